@@ -299,9 +299,11 @@ class C11Machine(RecordingMixin, RuleBasedStateMachine):
                 ps = None
         self.ps = ps
         self.pc = pc
-        self.quick.post_select = postsel.to_real(ps)
+        # the user keeps a reference to the objects handed over (and may complete them later)
+        self.quick_ps_obj, self.an_ps_obj = postsel.to_real(ps), postsel.to_real(ps)
+        self.quick.post_select = self.quick_ps_obj
         self.quick.photon_counting = pc
-        self.analyzer.post_selection = postsel.to_real(ps)
+        self.analyzer.post_selection = self.an_ps_obj
         self.changed("post-selection/detector-mode")
 
     def do_quick_ps_add(self, mode, count):
@@ -315,8 +317,8 @@ class C11Machine(RecordingMixin, RuleBasedStateMachine):
             return
         ps = copy.deepcopy(self.ps)
         ps["rules"].append([[mode], [count]])
-        call("PostSelection.add on the object held by the QuickSampler", self.quick.post_select.add, mode, count)
-        call("PostSelection.add on the object held by the Analyzer", self.analyzer.post_selection.add, mode, count)
+        call("PostSelection.add on the object given to the QuickSampler", self.quick_ps_obj.add, mode, count)
+        call("PostSelection.add on the object given to the Analyzer", self.an_ps_obj.add, mode, count)
         self.ps = ps
         self.changed("post-selection-edited-in-place")
 
@@ -537,8 +539,11 @@ class C11Machine(RecordingMixin, RuleBasedStateMachine):
         if not self.ready or self.circ.input_modes == 0:
             return
         n = self.circ.input_modes
-        self.step("quick_cfg", ps={"rules": [[[m0 % n], [c0]]], "multi": multi}, pc=self.pc)
-        self.step("read", which="quick")
+        # the object starts with one rule or (c0 == 1, multi) empty, as when a rule set is built step by step
+        first = [] if (multi and c0 == 1) else [[[m0 % n], [c0]]]
+        self.step("quick_cfg", ps={"rules": first, "multi": multi}, pc=self.pc)
+        if seed % 3:
+            self.step("read", which="quick")
         self.step("quick_ps_add", mode=mode, count=count)
         self.step("read", which="quick")
         self.step("sample", which="quick.N_outputs", seed=seed, n=20)
